@@ -44,6 +44,29 @@ ASSUMPTIONS = ["the grid passed to the three counts_* functions is the same (as 
 CHECKER_MODULES = ["Spdc.Real.Counts", "Spdc.Real.Singles"]
 
 
+# --- grids far outside the usual window (after seeded C08-12; purely additive block) ---------------------------------------------
+# jsi_point / jsi_singles_point: JointSpectrum::jsi / jsi_singles / the idler-singles route at one pair from the raw values and
+# the normalisations returned by the real public functions (jsa_raw, jsi_singles_raw, jsi_normalization,
+# jsi_singles_normalization): the zero short-circuits and the products.  jsi: same operations (sequential Gauss-Legendre);
+# singles: the 2-D rule sums in parallel (order not fixed) => the tolerance of singles_gl.
+OPS = set(OPS) | {"jsi_point", "jsi_singles_point"}
+TOL = dict(TOL)
+TOL.update({"jsi_point": ("ulp", 4), "jsi_singles_point": ("rel", 1e-6)})
+RULE += (" | every third setup (every second in the thorough tier): C08.anygrid - SPDC::efficiencies (Gauss-Legendre-40 or Simpson-200) on "
+         "grids far outside the usual window: [0, w_p]^2, [0, 2 w_s0] x [0, 2 w_i0], a marginal scan of one axis from zero, negative "
+         "frequencies, beyond the pump frequency, spans up to 1e12 w_p, a WavelengthSpace from 0.2 um to the far infrared, a "
+         "SumDiffFrequencySpace whose difference axis reaches zero photon frequency, grids entirely off the support (near zero "
+         "frequency, beyond the pump, negative, one photon near zero and the other near w_p, outside the pump envelope), grids with a "
+         "single point on a side: rates finite and >= 0, efficiencies not NaN, >= 0 and <= 1 (an excess counts only if reproduced "
+         "by the refined rule); pair lists (marginal scans over [-w_p/4, 5/4 w_p], the energy-conserving diagonal, a wavelength scan "
+         "to 200 um) through jsi_range / jsi_singles_range / jsi_singles_idler_range: every intensity finite and >= 0; a failing "
+         "grid names the responsible pair; K jsi_point / jsi_singles_point at pairs of zero, negative, beyond-pump and box-edge "
+         "frequency, K efficiencies on those grids")
+LEVEL_NOTE += (" K jsi_point / jsi_singles_point take the raw values (jsa_raw, jsi_singles_raw) and the normalisations "
+               "(jsi_normalization, jsi_singles_normalization) of the real crate as inputs and tie the composition in "
+               "JointSpectrum::jsi / jsi_singles / jsi_singles_idler_range (zero short-circuit, product).")
+
+
 def families(tier, seed):
     if tier == "quick":
         return [("counts", seed, 200, []), ("counts", seed, 150, ["singles"]), ("counts", seed, 100, ["limit"]),
